@@ -23,12 +23,12 @@ const (
 // Obligation is one rule instance: a rule applied to one construct (and, for
 // table rules, one abstract input). Keyed by Rule+Construct, never by line.
 type Obligation struct {
-	Rule      string `json:"rule"`
-	Construct string `json:"construct"`
-	Pos       string `json:"pos,omitempty"`
-	Status    Status `json:"status"`
-	Detail    string `json:"detail,omitempty"`
-	Known     string `json:"known_finding,omitempty"`
+	Rule      string   `json:"rule"`
+	Construct string   `json:"construct"`
+	Pos       string   `json:"pos,omitempty"`
+	Status    Status   `json:"status"`
+	Detail    string   `json:"detail,omitempty"`
+	Known     string   `json:"known_finding,omitempty"`
 	Trace     []string `json:"trace,omitempty"`
 }
 
